@@ -60,6 +60,13 @@ pub open spec fn val_same(a: Val, b: Val) -> bool {
     }
 }
 
+pub open spec fn is_scalar(v: Val) -> bool {
+    v is Empty || v is Boolean || v is Int || v is Float || v is Str
+}
+pub open spec fn same_kind(a: Val, b: Val) -> bool {
+    (a is Empty && b is Empty) || (a is Boolean && b is Boolean) || (a is Int && b is Int) || (a is Float && b is Float) || (a is Str && b is Str)
+}
+
 // "restrict a value to a numeric range": `in lo..hi` — "must be between lo and hi", `in 0..` is ">= 0",
 // `in ..100` is "<= 100": both bounds INCLUSIVE, an absent bound does not constrain. An int range admits
 // only Int values, a float range only Float values.
